@@ -149,6 +149,47 @@ func ruleSubShare(c *Ctx) {
 	c.check(good, "subshare:global", pos,
 		"`global` only makes the callback leave the second and later matches untouched",
 		"in (*interp).sub the flag `global` decides more than whether later matches are left untouched ("+why+"): sub() and gsub() no longer run the same replacement code, so sub's result can differ from gsub's first replacement")
+	// (1b) every successful return comes out of the regex engine: no shortcut decides the result for some
+	// targets (an empty one, a literal pattern) without asking the regex whether and where it matches -
+	// match(), which does ask, would then disagree with sub()/gsub() about the same regex and text
+	var engine []*ssa.BasicBlock
+	for _, b := range fn.Blocks {
+		for _, in := range b.Instrs {
+			if call, ok := in.(*ssa.Call); ok {
+				if f := calleeObj(call); f != nil && f.Pkg() != nil && f.Pkg().Path() == "regexp" && f.Name() != "Compile" && f.Name() != "MustCompile" && f.Name() != "QuoteMeta" {
+					engine = append(engine, b)
+				}
+			}
+		}
+	}
+	short := token.NoPos
+	nSucc := 0
+	for _, b := range fn.Blocks {
+		if len(b.Instrs) == 0 {
+			continue
+		}
+		ret, ok := b.Instrs[len(b.Instrs)-1].(*ssa.Return)
+		if !ok {
+			continue
+		}
+		rr := retResults(ret)
+		if len(rr) == 0 || !isNilConst(rr[len(rr)-1]) {
+			continue
+		}
+		nSucc++
+		dom := false
+		for _, e := range engine {
+			if e == b || e.Dominates(b) {
+				dom = true
+			}
+		}
+		if !dom {
+			short = ret.Pos()
+		}
+	}
+	c.check(short == token.NoPos && nSucc >= 1 && len(engine) >= 1, "subshare:engine", short,
+		"every successful return of sub passes through the regex engine",
+		"(*interp).sub can return a result without running the regex (a shortcut for some targets or patterns): for an empty-matching regex on an empty target it reports no match where match() finds one, so the builtins disagree about the same regex and text")
 	// (2) repl
 	ru, ok := usesOfParam(fn, "repl")
 	if !ok {
